@@ -3,7 +3,7 @@ import ast
 
 from .. import tables
 from ..events import calls_in, fi_of_term, bind_call, DUNDERS_INV
-from ..flow import get_flow, show, strip_sites, subterms
+from ..flow import get_flow, show, strip_sites, subterms, uncopied
 from ..guards import GuardGraph, normal_succ
 from ..model import AnalysisError, first_line, src_of
 from . import meta
@@ -158,7 +158,7 @@ def weaken_table(run, model, rule="C04.weaken"):
                     bad = "expected `%s`, possible outcomes %s" % (want, outs)
                 elif want == "return":
                     for p in feas:
-                        if p.outcome[1] != ("op", "Add", (bp, op)):
+                        if uncopied(p.outcome[1]) != ("op", "Add", (bp, op)):
                             bad = "the collapsed preconditions are %s, expected inherited groups + own group (groups stay separate: OR between classes)" % show(strip_sites(p.outcome[1]))
                 run.check(bad is None, rule, construct, "outcome `%s`" % want, bad or "", fi.loc(), None, construct.split("[", 1)[1])
     fi2 = model.func("_metaclass._collapse_postconditions", required=False)
